@@ -2120,4 +2120,123 @@ theorem globalOpts_suffix_aux : ∀ (n : Nat) (argv : List Str) (m : Option AMod
           · obtain ⟨pre, hp⟩ := ih rest' _ o (by simp at hl; omega) h
             exact ⟨arg :: v :: pre, by simp [← hp]⟩
 
+theorem pyBind_ok_conds {α : Type} (spec : ArgSpec) (dflt : Str → α) (pos : List α) (kw : List (Str × α))
+    (b : Binding α) (h : pyBind spec dflt pos kw = .ok b) :
+    (decide (pos.length > spec.args.length) && !spec.varargs) = false ∧
+    (!spec.varkw && kw.any (fun p => !spec.names.contains p.1)) = false := by
+  unfold pyBind at h
+  simp only [] at h
+  split at h
+  · cases h
+  rename_i c1
+  split at h
+  · cases h
+  split at h
+  · cases h
+  split at h
+  · cases h
+  split at h
+  · cases h
+  rename_i c5
+  exact ⟨by simpa using c1, by simpa using c5⟩
+
+theorem mem_zip_of_mem_left {α β : Type} : ∀ (l1 : List α) (l2 : List β), l1.length = l2.length →
+    ∀ x ∈ l1, ∃ y, (x, y) ∈ l1.zip l2 := by
+  intro l1
+  induction l1 with
+  | nil => intro l2 _ x hx; simp at hx
+  | cons a as ih =>
+    intro l2 hl x hx
+    cases l2 with
+    | nil => simp at hl
+    | cons b bs =>
+      simp at hl
+      rcases List.mem_cons.1 hx with rfl | hx
+      · exact ⟨b, by simp⟩
+      · obtain ⟨y, hy⟩ := ih bs hl x hx
+        exact ⟨y, by simp [hy]⟩
+
+/-- What the parser delivers is itself a call that Python binds. -/
+theorem delivered_binds (env : Env) (spec : ArgSpec) (hwf : WF spec) (pos : List Expr) (kw : Dict)
+    (hk : KeysOk spec kw) (a : List Val) (k : List (Str × Val)) (h : bindPhase env spec pos kw = .ok (a, k)) :
+    spec.args.length ≤ a.length ∧ ∃ b, pyBind spec Val.dflt a k = .ok b := by
+  obtain ⟨bE, hb, he⟩ := bindPhase_ok_binding env spec hwf pos kw hk _ h
+  obtain ⟨f1, f2, f3, f4⟩ := pyBind_ok_fields spec Expr.dflt pos kw bE hb
+  obtain ⟨c1, c5⟩ := pyBind_ok_conds spec Expr.dflt pos kw bE hb
+  obtain ⟨va, vk, vs, ss, h1, h2, h3, h4, rfl, rfl⟩ := evalBinding_ok he
+  have lva : va.length = spec.args.length := by
+    rw [evalAll_length env _ _ h1, f1]
+    simp only [List.length_append, List.length_take, List.length_map, List.length_drop]
+    omega
+  have lvk : vk.length = spec.kwonly.length := by
+    rw [evalAll_length env _ _ h2, f3]; simp
+  have lvs : vs.length = (pos.drop spec.args.length).length := by
+    rw [evalAll_length env _ _ h3, f2]
+  -- keys of the delivered kwargs
+  have hkeys : ∀ q ∈ spec.kwonly.zip vk ++ ss, q.1 ∈ spec.kwonly ∨ (q.1 ∉ spec.names ∧ spec.varkw = true) := by
+    intro q hq
+    rcases List.mem_append.1 hq with hq | hq
+    · left; exact (List.of_mem_zip hq).1
+    · right
+      obtain ⟨p, hp, hpk, _⟩ := evalKw_mem env _ _ h4 q hq
+      rw [f4] at hp
+      obtain ⟨hp1, hp2⟩ := List.mem_filter.1 hp
+      refine ⟨by rw [← hpk]; simpa using hp2, ?_⟩
+      cases hv : spec.varkw with
+      | true => rfl
+      | false =>
+        rw [hv] at c5
+        simp only [Bool.not_false, Bool.true_and] at c5
+        have := List.any_eq_false.1 c5 p hp1
+        simp only [Bool.not_eq_true] at this
+        rw [hp2] at this
+        cases this
+  refine ⟨by simp [lva], ?_⟩
+  unfold pyBind
+  have g1 : (decide ((va ++ vs).length > spec.args.length) && !spec.varargs) = false := by
+    cases hv : spec.varargs with
+    | true => simp
+    | false =>
+      rw [hv] at c1
+      simp only [Bool.not_false, Bool.and_true, decide_eq_false_iff_not] at c1 ⊢
+      simp only [List.length_append, lva, lvs, List.length_drop]
+      omega
+  have hargs_nokey : ∀ x ∈ spec.args, dhas (spec.kwonly.zip vk ++ ss) x = false := by
+    intro x hx
+    rw [dhas_false_iff]
+    intro q hq hqx
+    rcases hkeys q hq with h | ⟨h, _⟩
+    · exact hwf.disjoint hx (hqx ▸ h)
+    · exact h (by rw [hqx]; unfold ArgSpec.names; exact List.mem_append_left _ hx)
+  have g2 : (spec.args.take (va ++ vs).length).any (fun x => dhas (spec.kwonly.zip vk ++ ss) x) = false := by
+    apply List.any_eq_false.2
+    intro x hx
+    rw [hargs_nokey x (List.mem_of_mem_take hx)]; simp
+  have g3 : (spec.args.drop (va ++ vs).length).any
+      (fun x => !dhas (spec.kwonly.zip vk ++ ss) x && !posDefault spec x) = false := by
+    have : spec.args.drop (va ++ vs).length = [] := by
+      apply List.drop_of_length_le; simp [lva]
+    rw [this]; rfl
+  have g4 : spec.kwonly.any (fun x => !dhas (spec.kwonly.zip vk ++ ss) x && !spec.kwdefaults.contains x) = false := by
+    apply List.any_eq_false.2
+    intro x hx
+    obtain ⟨y, hy⟩ := mem_zip_of_mem_left spec.kwonly vk lvk.symm x hx
+    have : dhas (spec.kwonly.zip vk ++ ss) x = true :=
+      (dhas_iff _ _).2 ⟨(x, y), List.mem_append_left _ hy, rfl⟩
+    simp [this]
+  have g5 : (!spec.varkw && (spec.kwonly.zip vk ++ ss).any (fun p => !spec.names.contains p.1)) = false := by
+    cases hv : spec.varkw with
+    | true => simp
+    | false =>
+      simp only [Bool.not_false, Bool.true_and]
+      apply List.any_eq_false.2
+      intro q hq
+      rcases hkeys q hq with h | ⟨_, h⟩
+      · have : q.1 ∈ spec.names := by unfold ArgSpec.names; exact List.mem_append_right _ h
+        simp [this]
+      · rw [hv] at h; cases h
+  simp only [g1, g2, g3, g4, g5]
+  exact ⟨_, rfl⟩
+
+
 end Pfb.C15
